@@ -421,6 +421,8 @@ class C18Hibernation(Monitor):
                     if (d.id in got) != bool(took):
                         self.cov("round_with_seeds_returned_but_no_sprout_taken")
                     want = not took  # the rule speaks of sprouts *taken*, not of seeds offered
+                    if self.ctx.desc.get("entry") == "hand":
+                        self.cov("flag_rule_checked_in_a_round_driven_by_hand" + ("" if self.ctx.desc.get("hand_bump") else "_with_the_counter_left_alone"))
                     self.cov(f"flag_rule_checked.{'sleep' if want else 'awake'}.{'root' if li == 0 else 'intermediate'}")
                     if f != want:
                         self.v(
